@@ -60,13 +60,16 @@ def opOfJson (op : String) (a : Json) : Option (Op Res4) :=
 def faultOfJson (j : Json) : Option Addr :=
   if j.isNull then none else some ⟨jstr (jget j "kind"), jstr (jget j "node"), jnat (jget j "ord")⟩
 
-def msgsOfJson (j : Json) : List Msg :=
-  (jarr j).map (fun m => ⟨jstr (jget m "node"), jnat (jget m "id"), jbool (jget m "ok")⟩)
+def msgsOfJson (j : Json) : List (Msg Res4) :=
+  (jarr j).map (fun m => ⟨jstr (jget m "node"), jnat (jget m "id"), jbool (jget m "ok"),
+    if (jget m "res").isNull then none else some (resOfJson (jget m "res"))⟩)
 
 /-- insertion sort on strings (canonical multiset comparison) -/
 def sortStr (xs : List String) : List String := xs.mergeSort (fun a b => decide (a ≤ b))
 
-def msgKey (m : Msg) : String := s!"{m.node}/{m.id}/{m.ok}"
+def msgKey (m : Msg Res4) : String :=
+  let r := match m.res with | none => "-" | some r => s!"{r.cpu}/{r.mem}/{r.cores.toList}/{r.numa.toList}"
+  s!"{m.node}/{m.id}/{m.ok}/{r}"
 def wlKey (w : Wl Res4) : String := s!"{w.id}/{w.node}/{w.res.cpu}/{w.res.mem}/{w.res.cores.toList}/{w.res.numa.toList}"
 def ctKey (c : Ct) : String := s!"{c.id}/{c.node}/{c.running}"
 
